@@ -13,6 +13,20 @@ CHECKS = {
             "verified validators on the exported rhs/monitor_values skeleton, every let value and slot vs the extracted "
             "evaluator; Python's own parser as precedence oracle.",
             "Gallina model + verified validator run on the generated code (translation validation) + differential execution"),
+    "C04": ("Theorems (index tables without repetition are bijections refusing unknown names; init functions put an override in "
+            "exactly the indexed slot; validated rhs / monitor_values write slot index(name); argument order changes formals only) "
+            "+ correspondence: implementation's tables = mirror's tables, validators on exported skeletons (remove_unused on/off), "
+            "per-backend slot probing against the reference meaning, all 6 + 24 argument orders called positionally.",
+            "Gallina model + verified validator on generated code + differential execution across backends/orders"),
+    "C05": ("Theorems (validated Euler program = states + dt*rhs slot by slot in every commutative carrier; dt = 0 returns the "
+            "states under ring laws) + correspondence: valid_euler/valid_rhs on the exported skeletons; direct oracle "
+            "euler == s + dt*rhs bit for bit over dt in {0, tiny, large, negative}, inputs unmodified, all scheme aliases in random "
+            "process histories, random argument orders, numpy + jax + C.",
+            "Gallina model + verified validator on generated code + metamorphic execution"),
+    "C12": ("Theorems (two validated programs of one model return the same array; a validated body never reads an unbound name) "
+            "+ correspondence: both variants pass the validators against one slot table; direct oracle: rhs and all three schemes "
+            "with/without removal agree bit for bit, same index tables and lengths, NameError counted as failure.",
+            "Gallina model + verified validator on both variants + differential execution"),
 }
 
 def main():
